@@ -10,7 +10,7 @@ finding, equivalent => reviewed table).  Numeric equality of results is NOT deci
 """
 import ast
 
-from ..model import AnalysisError, src, callee_name, dotted, walk_local, calls_in, FUNC
+from ..model import AnalysisError, src, callee_name, dotted, walk_local, calls_in, FUNC, pos
 from ..flow import atoms_at, path_conditions
 from ..callgraph import CallGraph
 from .. import tables
@@ -232,14 +232,14 @@ def _ir_tables(ctx, repo):
            msg=f"_collect_params does not descend into {sorted(need - walk_tags)}: variables below such nodes are not parameters of the generated function (NameError -> silent fallback, or wrong binding)")
     # order agreement: producer evaluates args[0] before args[1]; the walk visits node[2] before node[3]; emitters put l before r
     prod = repo.fn("compiler:_ast_to_ir")
-    rec = [(c.lineno, src(c.args[0])) for c in calls_in(prod.node) if callee_name(c) == "_ast_to_ir" and c.args]
+    rec = [(pos(c), src(c.args[0])) for c in calls_in(prod.node) if callee_name(c) == "_ast_to_ir" and c.args]
     lr = [t for _l, t in sorted(rec) if t in ("args[0]", "args[1]")]
     ok = lr == ["args[0]", "args[1]"]
     rets = [r for r in walk_local(prod.node) if isinstance(r, ast.Return) and isinstance(r.value, ast.Tuple) and len(r.value.elts) == 4]
     ok = ok and all(src(r.value.elts[2]) == "left" and src(r.value.elts[3]) == "right" for r in rets) and bool(rets)
     ctx.ob("C05-R3", prod.fq, "the front end numbers variables left operand first and stores (tag, op, left, right)", ok, node=prod.node, construct="producer operand order")
     cp = repo.fn("backends/base:BackendProvider._collect_params")
-    wk = [(c.lineno, c.col_offset, src(c.args[0])) for c in ast.walk(cp.node) if isinstance(c, ast.Call) and callee_name(c) == "_walk" and c.args and src(c.args[0]).startswith("node[")]
+    wk = [(pos(c), 0, src(c.args[0])) for c in ast.walk(cp.node) if isinstance(c, ast.Call) and callee_name(c) == "_walk" and c.args and src(c.args[0]).startswith("node[")]
     two = [t for _l, _c, t in sorted(wk) if t in ("node[2]", "node[3]")]
     ctx.ob("C05-R3", cp.fq, "the parameter walk visits the left operand (node[2]) before the right (node[3])", two[:2] == ["node[2]", "node[3]"], node=cp.node, construct="consumer operand order",
            msg="parameters are collected right operand first while variables are numbered left first: the generated function binds a to b's value (a-b becomes b-a)")
